@@ -148,6 +148,22 @@ theorem C05_breaks_sameKeyShadowsParent :
     (grand Defects.none "f1").length = 1 := by
   decide
 
+def jInt : J → Option Int
+  | .int i => some i
+  | _ => none
+
+def nineTen : List Row :=
+  [{ id := 1, ent := 0, vals := [(0, .int 9)], refs := [] }, { id := 2, ent := 0, vals := [(0, .int 10)], refs := [] }]
+
+/-- **`min`/`max` compare texts**: over the stored values 9 and 10 the code's `max` is 9 and its `min` is 10
+    (the JSON texts "9" and "10" are compared); the intended behaviour gives 10 and 9. -/
+theorem C05_breaks_minMaxCompareText :
+    jInt (aggValue Defects.asImplemented .max 0 nineTen) = some 9 ∧
+    jInt (aggValue Defects.asImplemented .min 0 nineTen) = some 10 ∧
+    jInt (aggValue Defects.none .max 0 nineTen) = some 10 ∧
+    jInt (aggValue Defects.none .min 0 nineTen) = some 9 := by
+  decide
+
 /-! ## The hypotheses of `C05_paging` are satisfiable by a non-trivial state -/
 
 def distinctData : Data :=
